@@ -239,8 +239,9 @@ PROPS["C09"] = {
 }
 
 PROPS["C04"] = {
-    "parts": [{"name": "bind", "pkg": "c04", "chk": "chk_c04"}],
-    "reasons": {"bind": {"1": "the request message depends on which protobuf types are registered in the bridge process (clean vs poisoned global registry)",
+    "parts": [{"name": "bind", "pkg": "c04", "chk": "chk_c04"}, {"name": "e2e", "pkg": "c04", "chk": "chk_c04", "args": ["e2e"]}],
+    "reasons": {"e2e": {"1": "(unused in this part)", "2": "an HTTP status other than 400 for a value that does not parse (500 only for an unresolvable body path)", "3": "(unused in this part)", "4": "the handler panicked"},
+                "bind": {"1": "the request message depends on which protobuf types are registered in the bridge process (clean vs poisoned global registry)",
                          "2": "a value that does not parse produced something other than InvalidArgument (or Internal for a body path that does not resolve)",
                          "3": "a query parameter addressing a field already bound by the body or a path variable changed the request message",
                          "4": "the transcoder panicked"}},
@@ -282,6 +283,23 @@ PROPS["C03"] = {
     "design_ref": "DESIGN.md §3 C03",
     "assumptions": ["order across targets is the order in which targets were first added (one UpdateDesc per target in the harness); re-listing is C06's subject",
                     "seg_ok (variables do not nest) is a hypothesis of the matching theorems; the tokenizer cannot produce nested variables and the check evaluates it on every parsed template"],
+}
+
+_C17_REASONS = {"2": "a transcoded HTTP request was answered with a 5xx status although the target never fails and every binding is valid (client errors must be 4xx)",
+                "3": "a handler did not return after the client went away",
+                "4": "a handler panicked",
+                "5": "the response is not well-formed for its protocol (HTTP status / JSON lines, gRPC-Web frames ending in exactly one trailer with a grpc-status)"}
+PROPS["C17"] = {
+    "parts": [{"name": "http", "pkg": "c17", "chk": "chk_c17", "args": ["http"]},
+              {"name": "grpcweb", "pkg": "c17", "chk": "chk_c17", "args": ["grpcweb"]},
+              {"name": "ws", "pkg": "c17", "chk": "chk_c17", "args": ["ws"]},
+              {"name": "grpcws", "pkg": "c17", "chk": "chk_c17", "args": ["grpcws"]}],
+    "reasons": {"http": _C17_REASONS, "grpcweb": _C17_REASONS, "ws": _C17_REASONS, "grpcws": _C17_REASONS},
+    "rule": "the whole WebBridge (real PatternRouter + ServiceRouter over a description with every field kind and binding shape of the rich schema: body '*', scalar/enum/list/map/message/bytes body fields, path variables incl. nested and multi-segment, verbs, streaming methods of all four kinds, a default binding) in front of a scripted target. http: request lines from known routes with path values / query keys / query values from hostile pools (broken escapes, NUL, non-ASCII, overlong numbers, brackets), bodies = valid JSON, single-edit damaged JSON, noise tokens, random bytes; header variations. grpcweb: every content-type variant, bodies of frames with lying / huge / truncated lengths, arbitrary flags, client-side trailer frames, broken base64. ws / grpcws: real TCP sessions: text and binary messages plus RAW frames (unmasked, unfinished fragments, reserved opcodes, lengths larger than the data, close frames with arbitrary payloads, pings, stray continuations, invalid UTF-8), then a close frame, a half close, silence or an abrupt hang-up. Every handler invocation is counted in and out and wrapped for panics; the input about to run is recorded so that a crash of the process names it",
+    "level_text": "Coq theorems (composed from the C03/C04/C08/C09 models): unparsable bodies / path variables / query parameters => HTTP 400 whenever the binding is valid; any request path => a route, 404 or 400; wrong JSON types are errors; oversize gRPC-Web frames and short gRPC-WebSocket messages are refused with a status. 'No panic' and 'the handler returns' are NOT theorems: a total Gallina function cannot panic or block; these halves are decided by the monitored fuzz stream on the real handlers (partial).",
+    "level_note": "Trusted: Coq kernel, Go harness and its panic / liveness monitor, gorilla/websocket as the client, net/http request parsing (requests net/http itself rejects are not sent). The gRPC proxy entry point (grpc-go's own framing) is not fuzzed.",
+    "design_ref": "DESIGN.md §3 C17",
+    "assumptions": ["501 for client-streaming methods over plain HTTP is the bridge's documented answer, not a client-caused 5xx"],
 }
 
 NOT_APPLICABLE = {}
